@@ -412,6 +412,18 @@ def run_one(ck: Check, job: str, variant: int, n_cmds: int, reqs, expect, stats,
                  events=[{"name": a[0], "damage": a[1], "hit": a[2], "tag": str(a[3])} for a in exp])
     stats["events"] += n_events
     stats["qualifying_events"] += n_q
+    # the calculator of this run against the model the composition theorems (Props/C13_Calc.lean) are about
+    logic = calc.damage_logic
+    sampled = [l for en in entries for l in en.damage_logs]
+    rng_ = ck.rng
+    for l in (rng_.sample(sampled, 10) if len(sampled) > 10 else sampled):
+        reqs.append({"fn": "get_damage", "kind": type(logic).__name__,
+                     "arc": frac_str(Fraction(logic.attack_range_constant)), "mastery": frac_str(Fraction(logic.mastery)),
+                     "spec": stat_vec(calc.character_spec), "armor": str(calc.armor),
+                     "la": frac_str(Fraction(calc.level_advantage)), "fa": frac_str(Fraction(calc.force_advantage)),
+                     "damage": frac_str(Fraction(l.damage)), "hit": frac_str(Fraction(l.hit)), "buff": stat_vec(l.buff),
+                     "tag": l.tag.value if hasattr(l.tag, "value") else str(l.tag)})
+        expect.append(("get_damage", calc.get_damage(l), {"job": job, "log": l.name}))
 
     stats["runs"] += 1
     stats["run_evaluations"] += 1
@@ -642,6 +654,9 @@ def main(ck: Check):
                     window = sum((d for _, d in exact[py[2]:py[3]]), Fraction(0))
                     if not close(parse_frac(v[0]), py[1]) or not close(window, parse_frac(v[0])):
                         disagree(FUNC + " (run)", {"L": L, **extra}, m["scan"], list(py), {"seq": seq})
+            elif what == "get_damage":
+                if not close(parse_frac(r), data):
+                    disagree("DamageCalculator.get_damage (logs of a real run)", req, r, data, extra)
             elif what == "build":
                 if not compare_build(r, data):
                     disagree("SimulationEntry.build", req, r, data.model_dump(), extra)
